@@ -398,7 +398,14 @@ def r17_15(run, model):
                             re.search(r"\.deps\.(values|iter)\(\)", S.norm_ws(run.facts.text(rel, a["recv"]["sp"]))):
                         return True
                 return False
-            cur = [c for c in looks if re.search(r"\.current\(\)", S.norm_ws(run.facts.text(rel, c["recv"]["sp"])))]
+            def over_current(c):
+                # `once(genv.current()).chain(genv.deps.values()).filter_map(|env| env.get_trait_impl(..))`: the current package heads the chain
+                for a in par.ancestors(c):
+                    if a["k"] == "MethodCall" and a["method"] in ("any", "find_map", "filter_map", "for_each", "flat_map", "find") and \
+                            re.search(r"\.current\(\)", S.norm_ws(run.facts.text(rel, a["recv"]["sp"]))):
+                        return True
+                return False
+            cur = [c for c in looks if re.search(r"\.current\(\)", S.norm_ws(run.facts.text(rel, c["recv"]["sp"]))) or over_current(c)]
             deps = [c for c in looks if over_deps(c)]
             run.ob("R17.15", f"{f.name}|implementations are sought in the current package and in every dependency", bool(cur) and bool(deps), site(rel, looks[0]["sp"]),
                    f"{len(looks)} lookup(s): {len(cur)} on current(), {len(deps)} inside an iteration over all of deps",
